@@ -76,5 +76,10 @@ BODIES = {
 }
 
 
-def sources(enrich=True):
-    return [(name, SRC.format(body=body) + KERNELS) for name, body in BODIES.items()]
+def sources(enrich=True, case_variants=True):
+    out = [(name, SRC.format(body=body) + KERNELS) for name, body in BODIES.items()]
+    if case_variants:
+        from vlib.casevar import permute_case  # pylint: disable=import-outside-toplevel
+        # the same routines with the occurrences of every identifier re-spelled in another letter case (same program)
+        out += [(name + '~case', permute_case(src)) for name, src in list(out)[::2]]
+    return out
